@@ -1,5 +1,5 @@
 """C01 — Dependencies finish successfully before a task starts."""
-from . import executor as E, planner as P
+from . import executor as E, planner as P, runtask as R
 
 META = {
     "explanation": "Static conformance of the planner's lowering (PL1–PL5: every dependency's op is linked in both "
@@ -7,7 +7,7 @@ META = {
                    "(EX1–EX5: enqueue only at waiting_on==0 after the decrement, start only under exe_deps_succeeded(), "
                    "SUCCEEDED only after finish_execution returned) on every path of the CFGs. Decides the structural "
                    "necessary conditions listed in DESIGN §4.C01, not the run-time ordering itself.",
-    "rules": ["PL1", "PL2", "PL3", "W1(planner)", "PL5", "EX1", "EX2", "EX3", "EX4", "EX5"],
+    "rules": ["PL1", "PL2", "PL3", "PL10", "W1(planner)", "PL5", "EX1", "EX2", "EX3", "EX4", "EX5", "EX6", "SGc", "RT1"],
     "assumptions": ["CPython statement semantics", "an op leaves the in-flight set only when its own pid was reaped (C09)",
                     "hand argument of DESIGN §4.C01 that the rules imply the ordering by induction on the op graph"],
     "trusted": ["ast parser", "own call resolver (unresolved calls counted in coverage.analysed)"],
@@ -24,3 +24,6 @@ def run(A, rep, tier):
     E.rule_ex4(A, rep, X)
     E.rule_ex5(A, rep, X)
     E.rule_ex6(A, rep, X, stop_rules=False)
+    # 'exited with status 0': a signalled child must never be recorded as 0, and a non-zero code must fail the op
+    R.rule_sgc(A, rep)
+    R.rule_rt1(A, rep)
